@@ -1,3 +1,4 @@
+import collections
 from tabulate import tabulate
 from ..helpers.resource_matcher import ResourceMatcher
 
@@ -86,7 +87,10 @@ def printer(num_rows=10, last_rows=None, fields=None, resources=None,
         yield package.pkg
         for rows in package:
             if matcher.match(rows.res.name):
-                yield print_rows(rows)
+                printed = print_rows(rows)
+                yield printed
+                # the table is printed once all rows were seen, also those a later step did not ask for
+                collections.deque(printed, maxlen=0)
             else:
                 yield rows
 
